@@ -2,6 +2,7 @@
 See notes/C19.md (DESIGN.md section 6 C19)."""
 import json
 import os
+import re
 import shutil
 import struct
 import subprocess
@@ -304,6 +305,7 @@ class CaseGen:
         nonbinding: bool) ; decls in declaration order with the values known by construction (value None-able:
         use the EXPECT_UNKNOWN marker when it depends on inputs that are not known)"""
         r = self.r
+        self.unknown = False
         n_out = r.below(7)
         bound = {}            # name -> json value
         stmts = []
@@ -392,6 +394,8 @@ class CaseGen:
         if status != "ok":
             decls = []
             nonbinding = False
+        if self.unknown:
+            return src, None
         return src, {"status": status, "decls": decls, "nonbinding": nonbinding}
 
     def value_expr(self, bound, inputs_known):
@@ -412,6 +416,12 @@ class CaseGen:
             if form == 2:
                 return "[#%s, inputs.%s]" % (key, key), [val, val]
             return 'inputs["%s"]' % key, val
+        if k == 3 and inputs_known is not None:
+            # calling a function that came in through the inputs: no by-construction expectation
+            self.note("expr:call-input-function")
+            self.unknown = True
+            return r.choice(["inputs.f(2)", "inputs.f(1, 2, 3)", "(#f)(4)", "inputs.f([1, 2])", "[1, 2] via inputs.f",
+                             "arity(inputs.f)", "typeof(#f)"]), None
         return r.choice(VAL_EXPRS)
 
 
@@ -537,12 +547,20 @@ def merge_sources(cs, info):
 
 
 # --------------------------------------------------------------------------- known findings
-def known_class(case, expect):
-    """mirror of Properties/C19.v known_C19: which open known-finding class a case falls in"""
-    if case["mode"] == "noscript" and case["out_file"]:
-        return "F34"
-    if expect is not None and expect.get("nonbinding"):
-        return "F33"
+NONBINDING_NAMES = {"inf", "infinity", "constants"}      # + every built-in name (filled in main)
+OUTPUT_NAME_LINE = re.compile(r"^\s*output\s+([A-Za-z_][A-Za-z0-9_]*)\s*(//.*)?$")
+
+
+def known_class(case, expect=None):
+    """mirror of Properties/C19.v (known_noscript_outfile, binding_decl): which open known-finding class
+    an invocation falls in.  F33 is decided on the script text: some `output x` line names an x that can
+    never be a binding."""
+    if case["mode"] == "noscript":
+        return "F34" if case["out_file"] else None
+    for line in case["script"].split("\n"):
+        m = OUTPUT_NAME_LINE.match(line)
+        if m and m.group(1) in NONBINDING_NAMES:
+            return "F33"
     return None
 
 
@@ -586,6 +604,12 @@ def main(argv):
         res.tie_broken(e.what, e.detail)
         return res.finish()
 
+    try:
+        for line in c.harness_oneshot(h, "dump-builtins").split("\n"):
+            if line.strip():
+                NONBINDING_NAMES.add(line.split("\t")[0])
+    except c.BrokenTie as e:
+        res.tie_broken(e.what, e.detail)
     if replay:
         rp = json.load(open(replay))
         print(json.dumps(rp, indent=1))
@@ -828,7 +852,9 @@ def main(argv):
     res.coverage["evaluations"] = len(cases) + len(icases)
     res.coverage["distinct_nontrivial"] = len({json.dumps(cs, sort_keys=True) for cs, r in zip(cases, results)
                                                if cs["mode"] != "noscript" and (cs["flags"] or cs["stdin"] or
-                                                                                 "output" in cs["script"])})
+                                                                                 "output" in cs["script"])} |
+                                              {json.dumps(cs, sort_keys=True) for cs in icases
+                                               if cs["flags"] or cs["stdin"]})
     res.coverage["rule"] = ("generated invocation = mode (file / inline / -e stdin / no script) x -o x stdin (closed, "
                             "blank, JSON) x 0..4 --input (objects with overlapping keys, non-objects, function objects "
                             "incl. unloadable, invalid JSON) x script (0..6 output declarations, re-declarations, plain "
